@@ -155,6 +155,7 @@ def depth_stream(ctx, stats, rng, thorough):
     n = part_b(ctx, stats, rng, thorough, fams)
     n += part_a(ctx, stats, rng, thorough)
     n += part_c(ctx, stats, rng, thorough)
+    n += part_d(ctx, stats, rng, thorough)
     return n
 
 
@@ -206,11 +207,12 @@ def part_a(ctx, stats, rng, thorough):
     mod2 = ctx.model([[103, room, enc(t)] for t, room, _ in runs], unit="C11x") if have_model else [None] * len(runs)
     n_eval += len(runs)
     for (t, room, nd), g, m in zip(runs, got, mod2):
-        outcome = 1 if g["parse"] is not None else (0 if g["emit"] is None else 2)
-        stats[f"nest:pipeline-outcome:{('firmware', 'clean rejection', 'emit fails')[outcome]}"] += 1
+        emit_clean = g["emit"] in (None, "ValueError", "SyntaxError")
+        outcome = 1 if g["parse"] is not None else (0 if g["emit"] is None else (3 if emit_clean else 2))
+        stats[f"nest:pipeline-outcome:{('firmware', 'clean rejection by parse', 'emit fails', 'clean rejection by emit')[outcome]}"] += 1
         case = {"kind": "stack-room", "room": room, "tree": t, "text": N.render(t)[len(N.HEAD):]}
-        if g["parse"] not in (None, "ValueError") or (outcome == 2 and g["emit"] != "RecursionError"):
-            ctx.fail(f"with {room} interpreter frames left the pipeline ends in {g['parse'] or g['emit']} (parse needs {nd[0]} frames, emit {nd[1]})",
+        if g["parse"] not in (None, "ValueError", "SyntaxError"):
+            ctx.fail(f"with {room} interpreter frames left parse() ends in {g['parse']} (it needs {nd[0]} frames)",
                      case, "firmware or ValueError", g, key="nest-room-kind")
         if m is not None and m != [2] and m[2] == 1 and outcome == 0 and room < nd[0]:
             # parse() got by with fewer frames than its deepest frame: a RecursionError was swallowed by a try / except Exception
@@ -235,7 +237,7 @@ def part_a(ctx, stats, rng, thorough):
 def part_b(ctx, stats, rng, thorough, fams):
     n_eval = 0
     # ------------------------------------------------------------------ (b) boundary oracle on ladder families
-    rooms_b = [36] + ([80, 51] if thorough else [])
+    rooms_b = [36] + ([61] if thorough else [])
     jobs = []
     for room in rooms_b:
         for pat, leaf, side in fams:
@@ -325,6 +327,53 @@ def part_c(ctx, stats, rng, thorough):
                      {"kind": "expr-in-ladder", "template": tpl, "blocks": d, "expression depth": e, "room": room, "text": text},
                      "firmware or ValueError", g, key="nest-expr:" + str(g["parse"] or g["emit"]))
     return n_eval
+
+
+# block headers outside the supported subset ('arbitrary syntactically valid Python'), and supported ones in other spellings;
+# {k} = level, {I} = indentation of the header (for headers that need a second line)
+FOREIGN = [
+    ("with", "with q as c{k}:"), ("class", "class C{k}:"), ("nested-def", "def g{k}():"), ("async-def", "async def g{k}():"), ("match", "match q:\n{I} case {k}:"),
+    ("for-in-list", "for e{k} in nums:"), ("for-tuple", "for a{k}, b{k} in [(1, 2)]:"), ("for-range-3", "for i{k} in range(0, 10, 2):"), ("while-true-inner", "while True:"),
+    ("if-walrus", "if (m{k} := q) > 1:"), ("if-not", "if not q:"), ("if-and-call", "if q > 1 and add2(q, 1) > 2:"), ("while-else", "while q < 0:\n{I} led.on()\n{I}else:"),
+    ("for-else", "for i{k} in range(2):\n{I} led.on()\n{I}else:"), ("try-finally", "try:\n{I} led.on()\n{I}finally:"), ("try-else", "try:\n{I} led.on()\n{I}except Exception:\n{I} led.off()\n{I}else:"),
+    ("except-as", "try:\n{I} led.on()\n{I}except ValueError as err{k}:"), ("elif-chain", "if q > 900:\n{I} led.on()\n{I}elif q > 800:\n{I} led.off()\n{I}elif q > {k}:"),
+    ("if-paren-multiline", "if (q >\n{I}     1):"), ("if-comment", "if q > 1:  # level {k}"), ("lambda-body", "f{k} = lambda: (\n{I} 1)\n{I}if q:"),
+]
+
+
+def foreign_text(header, depth, leaf, unit=" "):
+    out = [N.HEAD]
+    for k in range(depth):
+        ind = unit * k
+        out.append(ind + header.replace("{k}", str(k % 7)).replace("{I}", ind) + "\n")
+    out.append(unit * depth + leaf + "\n")
+    return "".join(out)
+
+
+def part_d(ctx, stats, rng, thorough):
+    """ladders of block headers outside the supported subset and of other spellings / indentation units, around the
+    acceptance boundary: whatever the transpiler makes of them, both stages may only end cleanly"""
+    room = 40
+    texts = []
+    for name, header in FOREIGN:
+        for leaf in ("led.toggle()", "q = q + 1") if thorough else ("led.toggle()",):
+            for d in list(range(room - 14, room + 3)) + [3, 12]:
+                texts.append((name, d, " ", foreign_text(header, d, leaf)))
+    for unit, uname in (("\t", "tab"), ("  ", "two blanks"), ("    ", "four blanks")):
+        for header in ("if q > {k}:", "try:\n{I}" + unit + "led.on()\n{I}except Exception:", "for i{k} in range(2):"):
+            for d in range(room - 14, room + 3, 1 if thorough else 2):
+                if len(unit) * d <= 100:          # white-space guard of F-C11-blank-run-cubic (conservative: indentation is stripped anyway)
+                    texts.append(("indent:" + uname, d, unit, foreign_text(header.replace("{k}", "1"), d, "led.toggle()", unit)))
+    got = run_cases([["run", t[3], room] for t in texts], workers=12)
+    for (name, d, unit, text), g in zip(texts, got):
+        o = g["parse"] or g["emit"] or "firmware"
+        stats[f"nest:foreign:{name}:{o}"] += 1
+        if g["parse"] not in (None, "ValueError", "SyntaxError") or g["emit"] not in (None, "ValueError", "SyntaxError"):
+            stage = "parse()" if g["parse"] else "emit()"
+            ctx.fail(f"{stage} raised {g['parse'] or g['emit']} on {d} nested `{name}` blocks with {room} interpreter frames left",
+                     {"kind": "nesting-ladder", "family": name, "depth": d, "room": room, "text": text}, "firmware or ValueError / SyntaxError", g,
+                     key="nest-foreign:" + name.split(":")[0] + ":" + str(g["parse"] or g["emit"]))
+    return len(texts)
 
 
 def _leaves(tree):
